@@ -72,6 +72,9 @@ func NewWithOptions(opts *Options) *MemFS {
 		vfs.volumes[volumeName] = vfs.rootNode
 	}
 
+	// The current directory is the root directory until Chdir is called.
+	_ = vfs.SetCurDir(volumeName + string(vfs.PathSeparator()))
+
 	if len(opts.SystemDirs) == 0 {
 		opts.SystemDirs = avfs.SystemDirs(vfs, volumeName)
 	}
